@@ -21,6 +21,8 @@ PARTS = HEAD + consts('INDEX_HEADER_SIZE', 'INDEX_ENTRY_SIZE', 'HEADER_MAGIC') +
     Prelude('getters.rs'),
     Raw('pub struct Lead { pub bytes: [u8; 96] }\n'),
     Decl(PKG, 'struct', 'PackageMetadata'),
+    Decl(TYPES, 'struct', 'Scriptlet'),
+] + consts('PREIN_TAGS', 'POSTIN_TAGS', 'PREUN_TAGS', 'POSTUN_TAGS', 'PRETRANS_TAGS', 'POSTTRANS_TAGS', 'PREUNTRANS_TAGS', 'POSTUNTRANS_TAGS', 'VERIFYSCRIPT_TAGS') + [
     Raw('''
 pub assume_specification<T, E, F, O: FnOnce(E) -> Result<T, F>>[ Result::<T, E>::or_else ](r: Result<T, E>, op: O) -> (res: Result<T, F>)
     requires r is Err ==> op.requires((r->Err_0,)),
@@ -64,7 +66,45 @@ impl PackageMetadata {
                          ('get_conflicts', 1054, 1053, 1055), ('get_obsoletes', 1090, 1114, 1115),
                          ('get_recommends', 5046, 5048, 5047), ('get_suggests', 5049, 5051, 5050),
                          ('get_enhances', 5055, 5057, 5056), ('get_supplements', 5052, 5054, 5053))] + [
+    # ---- scriptlets: the read-back of what Scriptlet::apply emits (unit c06_blocks) ----------------------
+    Fn(PKG, 'get_scriptlet', impl='impl PackageMetadata',
+       subs=[ret(),
+             ('.map(|s| s.to_string())', '.map(|s: &str| -> (o: String) ensures o@ == s@ { str_to_string(s) })', 1, CC),
+             ('.map(ScriptletFlags::from_bits_retain)', '.map(|b: u32| -> (o: ScriptletFlags) ensures o.b == b { ScriptletFlags::from_bits_retain(b) })', 1, CC),
+             ('.map(|p| p.to_owned())', '.map(|p: &[String]| -> (o: Vec<String>) ensures o@ == p@ { slice_to_owned(p) })', 1, CC)],
+       spec='''    ensures scriptlet_read(self.header, tags.0.spec_to_u32(), tags.1.spec_to_u32(), tags.2.spec_to_u32(), r),'''),
+] + [Fn(PKG, f, impl='impl PackageMetadata', subs=[ret()],
+        spec='    ensures scriptlet_read(self.header, %d, %d, %d, r),   // %s' % (t1, t2, t3, n))
+     for f, t1, t2, t3, n in (('get_pre_install_script', 1023, 5020, 1085, '%pre'), ('get_post_install_script', 1024, 5021, 1086, '%post'),
+                              ('get_pre_uninstall_script', 1025, 5022, 1087, '%preun'), ('get_post_uninstall_script', 1026, 5023, 1088, '%postun'),
+                              ('get_pre_trans_script', 1151, 5024, 1153, '%pretrans'), ('get_post_trans_script', 1152, 5025, 1154, '%posttrans'),
+                              ('get_pre_untrans_script', 5103, 5107, 5105, '%preuntrans'), ('get_post_untrans_script', 5104, 5108, 5106, '%postuntrans'),
+                              ('get_verify_script', 1079, 5026, 1091, '%verifyscript'))] + [
     Raw('''}
+/// R5: bitflags type; only the bits matter
+pub struct ScriptletFlags { pub b: u32 }
+impl ScriptletFlags {
+    #[verifier::external_body]
+    pub fn from_bits_retain(bits: u32) -> (r: ScriptletFlags) ensures r.b == bits { unimplemented!() }
+}
+pub type ScriptletIndexTags = (IndexTag, IndexTag, IndexTag);
+#[verifier::external_body]
+pub fn str_to_string(s: &str) -> (r: String) ensures r@ == s@ { s.to_string() }
+#[verifier::external_body]
+pub fn slice_to_owned(p: &[String]) -> (r: Vec<String>) ensures r@ == p@ { p.to_owned() }
+/// what reading a scriptlet of one kind must give: Ok exactly when the body is there as a string; the flags and
+/// the interpreter are those stored under the tags of THAT kind, and absent when those are not there (or ill-typed)
+pub open spec fn scriptlet_read(h: Header<IndexTag>, t_script: u32, t_flags: u32, t_prog: u32, r: Result<Scriptlet, Error>) -> bool {
+    match get_str(h, t_script) {
+        None => r is Err,
+        Some(body) => {
+            &&& r is Ok
+            &&& r->Ok_0.script@ == body
+            &&& match get_u32(h, t_flags) { Some(f) => r->Ok_0.flags is Some && r->Ok_0.flags->0.b == f, None => r->Ok_0.flags is None }
+            &&& match get_strarr(h, t_prog) { Some(p) => r->Ok_0.program is Some && r->Ok_0.program->0@ == p, None => r->Ok_0.program is None }
+        },
+    }
+}
 /// R5: Dependency is opaque here
 pub struct Dependency { pub id: u64 }
 pub uninterp spec fn deps_spec(h: Header<IndexTag>, n: u32, f: u32, v: u32) -> Seq<Dependency>;
@@ -82,4 +122,7 @@ OBLIGATIONS = {('PackageMetadata::' + f): (['C05', 'C06'] if f in ('get_name get
     'get_provides get_requires get_conflicts get_obsoletes get_recommends get_suggests get_enhances get_supplements '
     'get_name get_version get_release get_arch get_vendor get_url get_vcs get_license get_packager get_build_host '
     'get_cookie get_source_rpm get_summary get_description get_group get_epoch get_build_time get_installed_size').split()}
+for _f in ('get_scriptlet get_pre_install_script get_post_install_script get_pre_uninstall_script get_post_uninstall_script '
+           'get_pre_trans_script get_post_trans_script get_pre_untrans_script get_post_untrans_script get_verify_script').split():
+    OBLIGATIONS['PackageMetadata::' + _f] = ['C05', 'C06']
 CANARIES = ['canary_c05_acc']
